@@ -10,7 +10,7 @@ use crate::driver::{expected_obs, observe_response, RespObs};
 use crate::engine::{guarded, hex, show, unhex, Report, Tier, Violation};
 use crate::refmodel::head;
 
-pub const RULE: &str = "every head of the small-scope grammar: version {1.0,1.1} x status {101,200,204,299,301,302,304,307,399,404,500,999} x reason {none, empty, OK, 300-byte with obs-text} x all ordered field lists of length 0..=2 (thorough 0..=3) over a 9-entry pool (repeated names, no OWS, OWS both sides, empty value, obs-text, Location, Content-Length, Set-Cookie) plus heads with 0,1,127,128 (accepted) and 129,130,200 (rejected) fields; for every head EVERY prefix length and the head followed by {1 byte, garbage, a second response}; entry points Flow::try_response (GET, HEAD), Call::try_response, parser::try_parse_response::<128>. distinct = distinct (head, entry point) pairs whose every prefix was checked";
+pub const RULE: &str = "every head of the small-scope grammar: version {1.0,1.1} x status {101,200,204,299,301,302,304,307,399,404,500,999} x reason {none, empty, OK, 300-byte with obs-text} x all ordered field lists of length 0..=2 (thorough 0..=3) over a 9-entry pool (repeated names, no OWS, OWS both sides, empty value, obs-text, Location, Content-Length, Set-Cookie) plus heads with 0,1,127,128 (accepted) and 129,130,200 (rejected) fields; for every head EVERY prefix length and the head followed by {1 byte, garbage, a second response}; entry points Flow::try_response (GET, HEAD), Call::try_response, parser::try_parse_response::<128>; each prefix on a fresh object AND all prefixes in growing order on one object followed by the complete head. distinct = distinct (head, entry point) pairs whose every prefix was checked";
 
 const FRONTS: [&str; 4] = ["flow-GET", "flow-HEAD", "call", "parser"];
 
@@ -132,6 +132,60 @@ fn check_cell(h: &[u8], nfields: usize, front: &str, bases: &Bases, p: usize, ta
     }
 }
 
+/// One object, prefixes of growing length, then the complete head. Returns (key, what, prefix length).
+fn incremental(h: &[u8], front: &str, bases: &Bases) -> Option<(String, String, usize)> {
+    let r = guarded(|| -> Option<(String, String, usize)> {
+        let mut flow = match front {
+            "flow-GET" => Some(bases.get.clone()),
+            "flow-HEAD" => Some(bases.head.clone()),
+            _ => None,
+        };
+        let mut call = if front == "call" { Some(bases.call.clone()) } else { None };
+        if flow.is_none() && call.is_none() {
+            return None; // the bare parser has no state
+        }
+        let ends = line_ends(h);
+        let parsed = head::parse(h).ok()?;
+        for p in 0..=h.len() {
+            let input = &h[..p];
+            let (resp_n, is_err): (Option<usize>, Option<String>) = if let Some(f) = flow.as_mut() {
+                match f.try_response(input) {
+                    Ok((n, Some(_))) => (Some(n), None),
+                    Ok((_, None)) => (None, None),
+                    Err(e) => (None, Some(format!("{:?}", e))),
+                }
+            } else {
+                match call.as_mut().unwrap().try_response(input) {
+                    Ok(Some((n, _))) => (Some(n), None),
+                    Ok(None) => (None, None),
+                    Err(e) => (None, Some(format!("{:?}", e))),
+                }
+            };
+            if p < h.len() {
+                if let Some(e) = is_err {
+                    return Some((format!("C05:incremental-prefix-error:{}", front), format!("prefixes offered in growing order to one object: prefix {} of {} returned {}", p, h.len(), e), p));
+                }
+                if let Some(n) = resp_n {
+                    // the known truncated-redirect fallback ends the sequence (reported by the per-prefix pass)
+                    let loc_complete = parsed.fields.iter().enumerate().any(|(i, f)| f.0 == "location" && !f.1.is_empty() && ends.get(i + 1).map(|e| *e <= p).unwrap_or(false));
+                    let st = parsed.status_line().map(|s| s.1).unwrap_or(0);
+                    if (300..400).contains(&st) && loc_complete && n == p {
+                        return None;
+                    }
+                    return Some((format!("C05:incremental-prefix-accepted:{}", front), format!("growing prefixes on one object: prefix {} of {} returned a response", p, h.len()), p));
+                }
+            } else if resp_n != Some(h.len()) {
+                return Some((format!("C05:incremental-complete-not-accepted:{}", front), format!("after offering every strict prefix to the same object, the complete head ({} bytes) is not returned as a response consuming {} bytes: got {:?} / {:?}", h.len(), h.len(), resp_n, is_err), p));
+            }
+        }
+        None
+    });
+    match r {
+        Ok(x) => x,
+        Err(pn) => Some((format!("C05:panic:{}:{}", front, crate::engine::panic_site(&pn)), pn, 0)),
+    }
+}
+
 const TAILS: [&[u8]; 4] = [b"", b"X", b"garbage\x00\xff\r\n\r\n", b"HTTP/1.1 200 OK\r\nContent-Length: 0\r\n\r\n"];
 
 fn check_head(h: &[u8], nfields: usize, bases: &Bases, ord: u64, rep: &mut Report, all_prefixes: bool) {
@@ -165,6 +219,14 @@ fn check_head(h: &[u8], nfields: usize, bases: &Bases, ord: u64, rep: &mut Repor
             if let Some((key, what)) = check_cell(h, nfields, front, bases, h.len(), t) {
                 rep.violation(Violation { key, ord: ord * 1000 + 999, what, replay: json!({"head": hex(h), "head_text": show(h), "nfields": nfields, "front": front, "p": h.len(), "tail": hex(t)}) });
             }
+        }
+        // the same prefixes offered one after the other to ONE object (the arrival schedule of a slow
+        // network), then the complete head: state kept between calls must not change any answer
+        if nfields <= 128 && all_prefixes {
+            if let Some((key, what, p)) = incremental(h, front, bases) {
+                rep.violation(Violation { key, ord: ord * 1000 + p as u64, what, replay: json!({"head": hex(h), "head_text": show(h), "nfields": nfields, "front": front, "p": p, "tail": "", "incremental": true}) });
+            }
+            cells += h.len() as u64 + 1;
         }
         rep.evaluations += cells;
         rep.transitions += cells;
@@ -251,5 +313,8 @@ pub fn replay(v: &Value) -> Result<Option<String>, String> {
     let p = v["p"].as_u64().ok_or("p")? as usize;
     let nf = v["nfields"].as_u64().ok_or("nfields")? as usize;
     let front = v["front"].as_str().ok_or("front")?;
+    if v["incremental"].as_bool() == Some(true) {
+        return Ok(incremental(&h, front, &bases()).map(|(k, w, _)| format!("[{}] {}", k, w)));
+    }
     Ok(check_cell(&h, nf, front, &bases(), p, &tail).map(|(k, w)| format!("[{}] {}", k, w)))
 }
